@@ -24,6 +24,15 @@ func (e *Engine) assumeGlobals(st *State) {
 	for _, g := range e.Globals {
 		sp := e.SSAPkgs[g.Pkg]
 		if sp == nil {
+			if g.Kind == "nonnil" {
+				// a variable of a dependency (io.EOF): an opaque constant, see Env.object
+				pn := g.Pkg[strings.LastIndex(g.Pkg, "/")+1:]
+				n := quoteSym("G$" + pn + "." + g.Name)
+				st.assume(not(eq(e.heapGet(st, n, "Int"), "0")))
+				e.declOnce("fun:isErrSite", "(declare-fun isErrSite (Int) Bool)")
+				st.assume(not(sx("isErrSite", e.heapGet(st, n, "Int"))))
+				e.Assumed[fmt.Sprintf("global %s.%s of a dependency is non-nil and never reassigned (not checked)", pn, g.Name)] = true
+			}
 			continue
 		}
 		if g.Kind == "const" {
